@@ -253,7 +253,10 @@ Fixpoint set_client_cached (id : nat) (v : option nat) (l : list tclient) : list
 Definition find_client (id : nat) (l : list tclient) : option tclient :=
   find (fun x => Nat.eqb (tc_id x) id) l.
 
-(* TCPClientTransport.Send of a reconnectable client (two attempts; a failed dial aborts).
+(* TCPClientTransport.Send of a reconnectable client: two ROUNDS; a round without a connection dials first (a
+   failed dial aborts) and then writes - the round that dials also writes, on the connection it has just opened;
+   a write on a cached connection that has been closed fails, the connection is forgotten and the next round
+   dials.  (So a stale cached connection costs one round, and the second one dials AND writes.)
    [local] = the proxy's localAddress, [rs] = the receivedSupport NewProxy was given: a
    dialled connection gets its own server transport reading it. *)
 Fixpoint tcp_client_send (n : nat) (li : nat) (local : bytes) (rs : bool) (id : nat) (b : bytes)
@@ -277,11 +280,10 @@ Fixpoint tcp_client_send (n : nat) (li : nat) (local : bytes) (rs : bool) (id : 
                 let cn := {| cn_id := c; cn_li := li; cn_open := true; cn_peer := tc_host cl; cn_peer_port := tc_port cl;
                              cn_from := {| t_kind := KTcpConn; t_addr := local; t_port := 0 |};
                              cn_received_support := rs |} in
-                tcp_client_send n' li local rs id b
-                                (with_clients p (set_client_cached id (Some c) (ps_clients p)))
-                                (cs ++ [cn])
-                                {| w_tcp_listeners := w_tcp_listeners w; w_next_conn := S c |}
-                                (outs ++ [(DDial (tc_host cl) (tc_port cl) c, [])])
+                (with_clients p (set_client_cached id (Some c) (ps_clients p)),
+                 cs ++ [cn],
+                 {| w_tcp_listeners := w_tcp_listeners w; w_next_conn := S c |},
+                 outs ++ [(DDial (tc_host cl) (tc_port cl) c, []); (DConn c, b)], true)
               else (p, cs, w, outs, false)
           end
       end
